@@ -19,7 +19,8 @@ RULE = ('A/D: every shipped listing x every result time: tables of the reader vs
         'from a fill rule "every n-th token of the file"; every cell of every table at every time must equal the number '
         'written there (perturbed) or printed there (unperturbed). Non-trivial (B) = at least one token changed sign or '
         'exponent width; distinct = distinct case JSON.'
-        ' Also: every chunk of result times reached by negative index, time=, step= and last() as well as by index.')
+        ' Also: every chunk of result times reached by negative index, time=, step= and last() as well as by index.'
+        ' Rounds 7-10: reversed connection names (twice), look-ups leave the table unchanged, negative row indices; a listing of another simulator opened and stepped meanwhile; addressing agreement on the perturbed files as well (rows printed twice hold different numbers there); tables after convergence / get_difference; rewind() or the reductions scan between visits.')
 ASSUMPTIONS = ['block names are 5 characters ending in a digit ((A3,I2) printing), the blank in the 4th column is repaired to 0',
                'a Fortran field is right-justified, so a token\'s end column identifies its table column',
                'TOUGH2-MP prints border rows once per processor: one table row per distinct printed index, '
